@@ -785,7 +785,41 @@ class Evaluator:
         if st.orelse:
             self.block(st.orelse)
 
+    def _accumulator_loop(self, st):
+        """`x = []` ... `for t in it: [if c:] x.append(e)` is the comprehension
+        `[e for t in it if c]`: (name, element ast, condition asts) or None."""
+        if st.orelse:
+            return None
+        body, conds = st.body, []
+        while len(body) == 1 and isinstance(body[0], ast.If) and not body[0].orelse:
+            conds.append(body[0].test)
+            body = body[0].body
+        if len(body) != 1 or not isinstance(body[0], ast.Expr):
+            return None
+        v = body[0].value
+        if not (isinstance(v, ast.Call) and isinstance(v.func, ast.Attribute)
+                and v.func.attr == "append" and isinstance(v.func.value, ast.Name)
+                and len(v.args) == 1 and not v.keywords
+                and not isinstance(v.args[0], ast.Starred)):
+            return None
+        name = v.func.value.id
+        old = self.env.vars.get(name)
+        if not (isinstance(old, tuple) and len(old) == 3 and old[0] == "list" and old[1] == ()
+                and isinstance(old[2], tuple) and old[2][:1] == ("id",)):
+            return None
+        for part in [st.iter, v.args[0], *conds]:
+            if any(isinstance(x, ast.Name) and x.id == name for x in ast.walk(part)):
+                return None
+        return name, v.args[0], conds
+
     def s_For(self, st):
+        acc = self._accumulator_loop(st)
+        if acc is not None:
+            name, elt, conds = acc
+            gen = ast.comprehension(target=st.target, iter=st.iter, ifs=conds, is_async=0)
+            ast.copy_location(gen, st)
+            self.env.vars[name] = self._comp("list", [elt], [gen])
+            return None
         self._loop(st, self.expr(st.iter), None)
 
     def s_While(self, st):
